@@ -105,4 +105,5 @@ func runC14(c *Ctx) {
 	for i := 0; i < n; i++ {
 		runDialScenario(c, i)
 	}
+	runRealDialerPersistence(c)
 }
